@@ -210,6 +210,13 @@ def warm(a, da=None):
         for d in a.dims:
             a.axes[d]                                                       # lookup by name
             getattr(a, d)                                                   # labels through attribute access
+            for name in ("cumsum", "sum", "argmin"):                        # along-axis calls with the axis given by name
+                try:
+                    with np.errstate(all="ignore"), warnings.catch_warnings():
+                        warnings.simplefilter("ignore")
+                        getattr(a, name)(axis=d)
+                except Exception:
+                    pass
         for ax in a.axes:
             ax.is_monotonic()
             v = ax.values
@@ -242,14 +249,16 @@ def build(spec, da=None, attrs=None):
     values are then a non-contiguous view); {"mode": "relabel"} built with labels 0..n-1, warmed, then relabelled in
     place with set_axis; {"mode": "transposed"} the transpose of an array stored in reversed dimension order; {"mode": "fortran"}
     column-major storage; {"mode": "copyof"} a shallow copy of another, heavily used array that then received these values and axes
-    through the public setters."""
+    through the public setters; {"mode": "renamed"} built under rotated dimension names, queried by name, then renamed in place."""
     da = da or env.import_dimarray()
     vals = spec_values(spec)
     dims, labels = list(spec["dims"]), [list(l) for l in spec["labels"]]
     hist = spec.get("hist") or {"mode": "none"}
     mode = hist.get("mode", "none")
     if not dims:
-        mode = "none" if mode in ("slice", "relabel", "transposed", "fortran") else mode
+        mode = "none" if mode in ("slice", "relabel", "transposed", "fortran", "renamed") else mode
+    if mode == "renamed" and len(dims) < 2:
+        mode = "warm"
     if mode == "copyof" and vals.dtype not in (np.dtype(float), np.dtype(int), np.dtype(bool), np.dtype(object)):
         mode = "warm"       # (the values setter widens to the default types: a narrow dtype would not survive it)
     if mode == "slice":
@@ -300,6 +309,22 @@ def build(spec, da=None, attrs=None):
             # the public values setter widens as documented (int <- float gives float64): anything else is the library's doing
             raise Violation("history-build-changed-dtype", {"what": "b = other.copy(shallow=True); b.values = <%s data> on %s data" % (vals.dtype, ov.dtype),
                                                             "got": str(a.values.dtype), "expected": str(vals.dtype)}, sig={"op": "build"})
+    elif mode == "renamed":
+        # built under rotated dimension names, queried BY NAME, then renamed in place: whatever was remembered per name must not survive
+        rot = dims[1:] + dims[:1]
+        a = da.DimArray(vals, axes=[da.Axis(label_array(l), d) for l, d in zip(labels, rot)])
+        warm(a, da)
+        # (through temporary names: DimArray's dims setter renames one name after the other BY NAME, so names that are both old and new
+        # would collide - see DESIGN.md 10.3, observation O1)
+        tmp = ["tmp_%d" % i for i in range(len(dims))]
+        if hist.get("via") == "axis-names":
+            for ax, t in zip(a.axes, tmp):
+                ax.name = t
+            for ax, d in zip(a.axes, dims):
+                ax.name = d
+        else:
+            a.dims = tuple(tmp)
+            a.dims = tuple(dims)
     elif mode == "transposed":
         parent = da.DimArray(np.ascontiguousarray(vals.transpose()), axes=[da.Axis(label_array(l), d) for l, d in zip(labels[::-1], dims[::-1])])
         warm(parent, da)
